@@ -15,7 +15,7 @@ CLAIMED = {
        "for the design and for the code as transcribed; its counterexamples and simulated behaviours are replayed on real on-disk trees with "
        "the abstract log and the Merkle self-consistency compared after every step.",
   design_ref="DESIGN.md §4 C08",
-  note="Assumes SHA-256 collision resistance (free term algebra). Bounded: N<=16 leaves, claimed positions up to N+1, AHT behaviours up to 14 steps. "
+  note="Concurrent probe: proof generation racing with ResetSize + Append (forced through a wrapped digest log): a proof must verify against the tree before or after. Assumes SHA-256 collision resistance (free term algebra). Bounded: N<=16 leaves, claimed positions up to N+1, AHT behaviours up to 14 steps. "
        "Trusted: the 20-line reference MTH in the harness (shape taken from TLC), TLC itself.",
   technique="TLA+ enumeration + TLC exhaustive evaluation, replay of every case and of AHT state-machine behaviours on the real code"),
 }
@@ -85,7 +85,7 @@ CLAIMED["C05"] = dict(
        "write set and commit id is validated by TLC against spec/TraceMVCC.tla: each read of a committed tx must equal the same read on the state produced by all txs with "
        "smaller ids. Predicted values only produce model-drift notes.",
   design_ref="DESIGN.md §4 C05",
-  note="Reads covered: Get (found / not found / own write) and full index scans through OngoingTx key readers; not yet GetWithPrefix, ranges with seek/end/offset/Reset, "
+  note="Concurrent runs also on a synced store (pre-committed, not yet committed conflicting transactions) and with range fingerprints (MarkPrefixScanned, TraceMVCC kind fp; transactions whose read-set holds fingerprints only). Reads covered: Get (found / not found / own write), full index scans through OngoingTx key readers and range fingerprints; not yet GetWithPrefix, ranges with seek/end/offset/Reset, "
        "MarkPrefixScanned, filters, deletes. Schedules are sequential interleavings of steps of <= 2 read-write txs; true parallelism only in the free-running runs.",
   technique="TLC exhaustive model checking + deterministic replay of TLC schedules + TLC trace validation of real reads/commits")
 
@@ -98,7 +98,7 @@ CLAIMED["C15"] = dict(
        "on the real code Decode(Encode(v)) = v, v < w <=> Enc(v) <bytes Enc(w), v = w <=> Enc(v) = Enc(w) for the key and value codecs, TxHeader/TxMetadata/KVMetadata bytes, "
        "ExportTx -> ReplicateTx between two real stores, the schema converters and through a real SQL engine (index order, index equality, sort spill files).",
   design_ref="DESIGN.md §4 C15, docs/C15.md",
-  note="Model-based enumeration, not a proof about bit patterns: inside a class values are sampled (4 variants quick / 12 thorough). NaN, sub-second expirations excluded.",
+  note="Boundary lengths (0, 1, max-1, max, max+1) of every length-bounded field through every reader incl. a real store commit / read-back / replication; a decoder rejecting its encoder's output is a verdict. Model-based enumeration, not a proof about bit patterns: inside a class values are sampled (4 variants quick / 12 thorough). NaN, sub-second expirations excluded.",
   technique="TLA+ domain partition + order relation, exhaustive pair/triple enumeration by TLC, replay on the real codecs and SQL engine")
 CLAIMED["C16"] = dict(
   category="exploration",
@@ -120,7 +120,7 @@ CLAIMED["C06"] = dict(
        "linearization points (depth-first, high-water-mark acceptance; tx ids of writes pin the write order): a window is accepted iff a linearization exists. The abstract state "
        "at every cut comes from TLC, never from the database.",
   design_ref="DESIGN.md §4 C06, docs/C06.md",
-  note="No forced schedules (free-running goroutines); windows bound the concurrency depth; porcupine deliberately not used. Rejected windows are re-validated alone and classified by TLC.",
+  note="Race rounds on a synced store with gated conflicting conditional writes (validated inside another writer's sync window); snap windows with GetAll / Scan overlapping multi-key writers. No forced schedules (free-running goroutines); windows bound the concurrency depth; porcupine deliberately not used. Rejected windows are re-validated alone and classified by TLC.",
   technique="TLC trace validation with silent linearization steps (existence of a linearization per window) + exhaustive MC of the atomic spec")
 CLAIMED["C09"] = dict(
   category="exploration",
@@ -131,7 +131,7 @@ CLAIMED["C09"] = dict(
        "stratified under a time box in the quick tier) plus multi-bit/pair alterations in copies, running 9 read paths (Open, ReadTx, ReadTxHeader, ReadTxEntry, ReadValue, ExportTx, "
        "TxReader, proofs, index rebuild) under recover + deadline: accept = error or identical content.",
   design_ref="DESIGN.md §4 C09, docs/C09.md",
-  note="Exhaustive single-bit coverage only in the thorough tier; index and hash-tree files are outside the property's scope.",
+  note="spec/CorruptionSeq.tla: read SEQUENCES (checked / unchecked reads of the same and other values) x alteration placement x value-cache modes (VLogCacheSize 0 / 1 / 64). Exhaustive single-bit coverage only in the thorough tier; index and hash-tree files are outside the property's scope.",
   technique="TLA+ field/check matrix evaluated by TLC + bit-flip replay on real stores")
 CLAIMED["C10"] = dict(
   category="model_checking",
@@ -142,7 +142,7 @@ CLAIMED["C10"] = dict(
        "every read and, after every step, the full projection (all keys, all versions); snapshots are re-read after later inserts/flushes/compactions, with concurrent reader "
        "goroutines on snapshots.",
   design_ref="DESIGN.md §4 C10, docs/C10.md",
-  note="The copy-on-write node structure is deliberately not modelled (it is the thing under test); exhaustive only for <= 5-6 ops over 3 keys.",
+  note="Reader matrix: every (Prefix, SeekKey, EndKey) over a prefix-closed probe universe x inclusive flags x order x offset x history, on three small trees, through Read and ReadBetween. The copy-on-write node structure is deliberately not modelled (it is the thing under test); exhaustive only for <= 5-6 ops over 3 keys.",
   technique="TLC model checking of the abstract multi-version map + replay of TLC behaviours on the real tbtree")
 CLAIMED["C18"] = dict(
   category="model_checking",
@@ -153,7 +153,7 @@ CLAIMED["C18"] = dict(
        "fault); the effect of every call is OBSERVED (tx ids, settings, user list, returned data) for every RPC x role x database selection x session state (~10k cells) and all "
        "calls are validated as a trace by spec/TraceAuth.tla.",
   design_ref="DESIGN.md §4 C18, docs/C18.md",
-  note="Token expiry (minutes granularity) is not driven; some RPCs without observable effect are judged by status only.",
+  note="Multi-step flows (Auth.tla modes flow / flowcode): transaction bound to one database while the session selects another, permission changes in between; effects observed per database after every step. Token expiry (minutes granularity) is not driven; some RPCs without observable effect are judged by status only.",
   technique="TLC exhaustive policy/state-machine check + full RPC matrix on the real server + TLC trace validation")
 
 CLAIMED["C07"] = dict(
